@@ -19,7 +19,8 @@ W15 == [nodes |-> << F15(1, <<"a","a">>, 12, 0), F15(2, <<"b","b","b">>, 7, 0), 
                      [F15(7, <<"g","g">>, 0, 0) EXCEPT !.content = Runs(5, 3)] >>]
 (* the same tree with sparse files whose sizes differ by one in the ninth digit (for comparisons between large values) *)
 W15b == [nodes |-> W15.nodes \o << Big15(8, <<"h","8">>, "99999999", 99999999), Big15(9, <<"h","9">>, "100000000", 100000000),
-                                    Big15(10, <<"h","1","0">>, "100000001", 100000001) >>]
+                                    Big15(10, <<"h","1","0">>, "100000001", 100000001),
+                                    Big15(11, <<"h","1","1">>, "999999999", 999999999), Big15(12, <<"h","1","2">>, "1000000007", 1000000007) >>]
 
 Leaves6 == {"2", "3", "10", "size", "hardlinks", "length(name)"}
 Leaves3 == {"2", "3", "size"}
@@ -58,13 +59,15 @@ ChooseWhere == /\ phase = "start" /\ kind' = "where"
 (* comparisons between large values that differ by one (equality is exact whatever the magnitude) *)
 ChooseBigWhere == /\ phase = "start" /\ kind' = "where"
                   /\ exprs' \in { << <<"+", "size", "0">> >>, << <<"*", "size", "1">> >>, << <<"-", "size", "1">> >>, << <<"+", "size", "1">> >> }
-                  /\ wop' \in {"eq", "ne", "gt", "lte"} /\ wlit' \in {100000000, 99999999} /\ style' = "min" /\ phase' = "done"
+                  /\ wop' \in {"eq", "ne", "gt", "lte"} /\ wlit' \in {100000000, 99999999, 999999999, 1000000007} /\ style' = "min" /\ phase' = "done"
 Lists == { << <<"+", "size", "1">>, <<"-", "size", "1">>, <<"*", "size", "2">>, <<"neg", "size">>, <<"+", "*", "2", "3", "4">> >>,
            << <<"+", "*", "2", "3", "4">>, <<"neg", "size">>, <<"*", "size", "2">>, <<"-", "size", "1">>, <<"+", "size", "1">> >>,
            << <<"*", "+", "2", "3", "4">>, <<"+", "2", "*", "3", "4">>, <<"%", "size", "5">>, <<"/", "size", "1">>, <<"size">> >>,
            \* the same negated bracket more than once in a row, alone and as a sub-expression
            << <<"*", "neg", "+", "size", "1", "2">>, <<"neg", "+", "size", "1">>, <<"neg", "+", "size", "1">>, <<"+", "size", "1">> >>,
-           << <<"neg", "%", "size", "5">>, <<"%", "size", "5">>, <<"neg", "%", "size", "5">>, <<"-", "10", "neg", "*", "size", "2">>, <<"neg", "*", "size", "2">> >> }
+           << <<"neg", "%", "size", "5">>, <<"%", "size", "5">>, <<"neg", "%", "size", "5">>, <<"-", "10", "neg", "*", "size", "2">>, <<"neg", "*", "size", "2">> >>,
+           \* the same negated function call more than once in a row, alone and inside a sum
+           << <<"+", "neg", "length(name)", "1">>, <<"neg", "length(name)">>, <<"neg", "length(name)">>, <<"length(name)">>, <<"-", "size", "neg", "length(name)">> >> }
 ChooseList == /\ phase = "start" /\ kind' = "list" /\ exprs' \in Lists /\ style' = "min" /\ wop' = "" /\ wlit' = 0 /\ phase' = "done"
 (* text literals that spell the internal name of a column or of an expression selected next to them (the key of the per-row value   *)
 (* cache): each column shows its own value - the literal its text, the expression its number - in either order                      *)
